@@ -507,9 +507,9 @@ func runSaga(pr *problem, variant string, o combo, maxit int, rng *rand.Rand, r 
 			maxX = math.Max(maxX, math.Abs(v))
 		}
 		d := dist(res.pt, pr.xstar)
-		ok := d <= 100*pr.eps*math.Sqrt(c.Invb2.f())*maxX+1e-12
+		ok := d <= 20*pr.eps*math.Sqrt(c.Invb2.f())*maxX+1e-12
 		res.nearOK = &ok
-		res.info = vh.M{"gamma": gamma, "seed": seed, "epochs": epochs, "dist_over_tol": d / (100*pr.eps*math.Sqrt(c.Invb2.f())*maxX + 1e-12)}
+		res.info = vh.M{"gamma": gamma, "seed": seed, "epochs": epochs, "dist_over_tol": d / (20*pr.eps*math.Sqrt(c.Invb2.f())*maxX + 1e-12)}
 	}
 	r.evalPts = nil
 	return res
